@@ -586,6 +586,7 @@ func (f *fnState) havocModifies(fc *spec.FuncContract, ctx *specCtx, pre *env) {
 			allowed = append(allowed, p("fk"))
 		}
 		f.assume(fmt.Sprintf("(forall ((fk %s)) (! (=> (not %s) (= (select %s fk) (select %s fk))) :pattern ((select %s fk))))", ks, or(allowed...), nv, old, nv))
+		f.closure(nv, s, nr)
 	}
 }
 
@@ -834,4 +835,21 @@ func (f *fnState) appendBuiltin(i *ssa.Call) {
 				ml, cur, r, s.T, cur, locOff(fmt.Sprintf("(s-loc %s)", more.T), "aj"), cur, r, s.T))
 		}
 	}
+}
+
+// closure: the heap stays closed under allocation — every reference stored in a cell
+// designates memory below the allocation watermark (assumed of callees and of loop bodies).
+func (f *fnState) closure(m, sort, nextref string) {
+	var refOf string
+	switch sort {
+	case "(Array Loc Slice)":
+		refOf = "(l-ref (s-loc (select %s hk)))"
+	case "(Array Loc Loc)":
+		refOf = "(l-ref (select %s hk))"
+	case "(Array Loc Iface)":
+		refOf = "(l-ref (i-ptr (select %s hk)))"
+	default:
+		return
+	}
+	f.assume(fmt.Sprintf("(forall ((hk Loc)) (! (< %s %s) :pattern ((select %s hk))))", fmt.Sprintf(refOf, m), nextref, m))
 }
